@@ -107,4 +107,5 @@ func genC03(p *Plan, r *RNG) {
 		}
 	}
 	p.QuietNS = 5 * sec
+	addFaults(p, r, faultLevel(r)/2)
 }
